@@ -246,6 +246,8 @@ def build_scenario(rng, inp, canonical=False, maxlen=6, use_diff=None, inject_mo
         cuts = [len(g) - 1, len(g) - 8, len(g) // 2, 10, 1, 0]
         cut = cuts[0] if canonical else rng.choice(cuts + [rng.randrange(len(g))])
         cut = max(0, min(cut, len(g) - 1))
+        if served[i] == "":
+            cut = max(1, cut)       # zero bytes read back as an empty file: for an empty patch that is no fault
         note["cut"] = "%d/%d" % (cut, len(g))
         files["%s.diff/%s.gz" % (NAME, pnames[i])] = g[:cut]
     # the index
@@ -497,22 +499,49 @@ class NewFile:
         return getattr(self._f, name)
 
 
+def _empty(d):
+    """remove everything inside directory d (created if missing), keep d itself"""
+    if not os.path.isdir(d):
+        os.makedirs(d)
+        return
+    for e in os.scandir(d):
+        if e.is_dir(follow_symlinks=False):
+            shutil.rmtree(e.path)
+        else:
+            os.unlink(e.path)
+
+
 def materialize(casedir, sc):
+    """write the scenario into casedir.  casedir is re-used from case to case by one process (creating
+    and removing directories is slow on this file system): its content is wiped first"""
     repo = os.path.join(casedir, "repo")
-    for rel, data in sc["files"].items():
-        p = os.path.join(repo, rel)
-        os.makedirs(os.path.dirname(p), exist_ok=True)
-        with open(p, "wb") as f:
-            f.write(data)
-    os.makedirs(repo, exist_ok=True)
+    diffd = os.path.join(repo, NAME + ".diff")
     ldir = os.path.join(casedir, "local")
-    os.makedirs(ldir)
+    tmpd = os.path.join(casedir, "tmp")
+    want_diffd = any(rel.startswith(NAME + ".diff/") for rel in sc["files"])
+    if os.path.isdir(diffd):
+        _empty(diffd)
+        if not want_diffd:
+            os.rmdir(diffd)
+    for d in (repo, ldir, tmpd):
+        if os.path.isdir(d):
+            for e in os.scandir(d):
+                if e.path != diffd:
+                    if e.is_dir(follow_symlinks=False):
+                        shutil.rmtree(e.path)
+                    else:
+                        os.unlink(e.path)
+        else:
+            os.makedirs(d)
+    if want_diffd and not os.path.isdir(diffd):
+        os.mkdir(diffd)
+    for rel, data in sc["files"].items():
+        with open(os.path.join(repo, rel), "wb") as f:
+            f.write(data)
     local = os.path.join(ldir, NAME)
     if sc["local0"] is not None:
         with open(local, "wb") as f:
             f.write(sc["local0"])
-    tmpd = os.path.join(casedir, "tmp")
-    os.makedirs(tmpd)
     return "file://" + os.path.join(repo, NAME), local, tmpd
 
 
@@ -643,7 +672,13 @@ def project(sc, obs):
 
 
 def cleanup(casedir):
-    shutil.rmtree(casedir, ignore_errors=True)
+    """nothing per case: the per-process directory is wiped by the next materialize() and removed
+    with ctx.work at exit"""
+    return None
+
+
+def proc_dir(workdir):
+    return os.path.join(workdir, "w%d" % os.getpid())
 
 
 # ------------------------------------------------------------------ comparison with TLC's expectation
@@ -761,11 +796,8 @@ def run_case(workdir, rng, case, variant, opts, tag):
 
 
 def run_scenario(workdir, sc, case, tag):
-    casedir = os.path.join(workdir, tag)
-    try:
-        obs = execute(casedir, sc)
-    finally:
-        cleanup(casedir)
+    casedir = proc_dir(workdir)
+    obs = execute(casedir, sc)
     proj = project(sc, obs)
     status, msg = judge(sc, case, obs, proj)
     summary = "%s local0=%s fault=%s/%d hist=%r h0=%d nw=%d flav=%s inject=%s -> %s%s local=%s" % (
@@ -792,7 +824,7 @@ def random_input(rng, flavour_sets, maxv=8, maxlines=30):
     h0 = 0 if rng.random() < 0.6 else rng.randint(0, n)
     local0 = rng.choice([ABSENT, FOREIGN, FOREIGN] + hist + hist)
     kinds = ["none", "none", "wrongResultHash", "indexMissing", "indexGarbage", "indexEmpty", "renameFails",
-             "writeFails", "writeFails", "writeFails"]
+             "writeFails", "writeFails", "writeFails", "writeFails"]
     if n >= 1:
         kinds += ["patchCorrupt", "patchTruncated", "badLastPatch"] * 2
     k = rng.choice(kinds)
@@ -802,7 +834,7 @@ def random_input(rng, flavour_sets, maxv=8, maxlines=30):
     elif k == "badLastPatch":
         i = n
     elif k == "writeFails":
-        i = rng.choice([0, 1, nw, nw + 1, rng.randint(0, nw + 1)])
+        i = rng.choice([0, 1, nw, nw + 1, rng.randint(0, nw + 1), rng.randint(0, nw + 1)])
     return {"hist": hist, "h0": h0, "local0": local0, "fault": {"k": k, "i": i}, "nw": nw,
             "flav": list(rng.choice(flavour_sets))}
 
@@ -812,7 +844,7 @@ def record_one(workdir, seed, idx, opts):
     import random
     rng = random.Random("c19-trace-%s-%d" % (seed, idx))
     inp = random_input(rng, opts["flavour_sets"], opts.get("maxv", 8), opts.get("maxlines", 30))
-    mode = "rlimit" if rng.random() < 0.4 else "wrap"
+    mode = "rlimit" if rng.random() < 0.6 else "wrap"
     LONG[0] = rng.random() < 0.12
     try:
         sc = build_scenario(rng, inp, canonical=False, maxlen=max(4, min(30, inp["nw"] + 4)),
@@ -823,11 +855,8 @@ def record_one(workdir, seed, idx, opts):
 
 
 def trace_of(workdir, sc, tag):
-    casedir = os.path.join(workdir, tag)
-    try:
-        obs = execute(casedir, sc)
-    finally:
-        cleanup(casedir)
+    casedir = proc_dir(workdir)
+    obs = execute(casedir, sc)
     proj = project(sc, obs)
     inp = dict(sc["in"])
     inj = sc["inject"]
